@@ -176,8 +176,23 @@ func (g *staticGen) count(name string, base int, alts ...int) int {
 
 // genStaticFeed builds a well-formed feed. With vary=false it is the base feed.
 func genStaticFeed(c *Ctx, vary bool) *feedModel {
+	return genStaticFeedN(c, vary, baseCounts, nil, nil)
+}
+
+var seqVals = []int{2, 10, 100, 0, 33, 1000, 7, 250}
+
+// genStaticFeedN builds a feed with the given row counts. stTrips (optional) names the trip
+// of every stop_times row, shapeOfRow (optional) the shape of every shapes row; sequence
+// numbers are then assigned per trip / shape from seqVals (text order != numeric order).
+func genStaticFeedN(c *Ctx, vary bool, n staticCounts, stTrips []int, shapeOfRow []int) *feedModel {
 	g := &staticGen{c: c, vary: vary, style: map[string]int{}}
-	n := baseCounts
+	if stTrips != nil {
+		n.stopTimes = len(stTrips)
+	}
+	if shapeOfRow != nil {
+		n.shapePoints = 1
+		n.shapes = len(shapeOfRow)
+	}
 	if vary {
 		n.agencies = g.count("agency", 2, 1, 3)
 		n.routes = g.count("routes", 2, 1, 3)
@@ -292,7 +307,28 @@ func genStaticFeed(c *Ctx, vary bool) *feedModel {
 	if n.calendarDates >= 3 {
 		nExOnly = 2
 	}
+	nShapeIDs := n.shapes
+	if shapeOfRow != nil {
+		nShapeIDs = 0
+		for _, x := range shapeOfRow {
+			if x+1 > nShapeIDs {
+				nShapeIDs = x + 1
+			}
+		}
+	}
+	shapeSeen := map[int]int{}
 	mk("shapes.txt", n.shapes*n.shapePoints, func(r int, sp colSpec) (string, bool) {
+		if shapeOfRow != nil {
+			switch sp.Name {
+			case "shape_id":
+				return g.id("SH", shapeOfRow[r]), true
+			case "shape_pt_sequence":
+				k := shapeSeen[shapeOfRow[r]]
+				shapeSeen[shapeOfRow[r]]++
+				return fmt.Sprint(seqVals[k%len(seqVals)] + k/len(seqVals)*5000), true
+			}
+			return "", false
+		}
 		switch sp.Name {
 		case "shape_id":
 			return g.id("SH", r/n.shapePoints), true
@@ -318,14 +354,14 @@ func genStaticFeed(c *Ctx, vary bool) *feedModel {
 			}
 			return g.id("C", (r/2)%n.calendars), true
 		case "shape_id":
-			if n.shapes == 0 {
+			if nShapeIDs == 0 {
 				return "", true
 			}
 			k := g.choose(fmt.Sprintf("trips[%d].shape_id", r), 2)
 			if k == 1 {
 				return "", true
 			}
-			return g.id("SH", r%n.shapes), true
+			return g.id("SH", r%nShapeIDs), true
 		}
 		return "", false
 	})
@@ -337,7 +373,21 @@ func genStaticFeed(c *Ctx, vary bool) *feedModel {
 	})
 	// stop times: rows alternate between trips in blocks of two; sequences are distinct per trip
 	// and chosen so that text order differs from numeric order
+	tripSeen := map[int]int{}
 	mk("stop_times.txt", n.stopTimes, func(r int, sp colSpec) (string, bool) {
+		if stTrips != nil {
+			switch sp.Name {
+			case "trip_id":
+				return g.id("T", stTrips[r]), true
+			case "stop_id":
+				return g.id("S", r%n.stops), true
+			case "stop_sequence":
+				k := tripSeen[stTrips[r]]
+				tripSeen[stTrips[r]]++
+				return fmt.Sprint(seqVals[k%len(seqVals)] + k/len(seqVals)*5000), true
+			}
+			return "", false
+		}
 		switch sp.Name {
 		case "trip_id":
 			return g.id("T", (r/2)%n.trips), true
